@@ -326,7 +326,14 @@ def lex_continue(
     # the lexeme.
     if (
         char in g.numeric_start_chars
-        and Token(char + next_char, grammar=g).is_numeric()
+        and (
+            Token(char + next_char, grammar=g).is_numeric()
+            # a sign may also be followed by the decimal point: +.5
+            or (
+                next_char == "."
+                and Token(char + next_char + "0", grammar=g).is_numeric()
+            )
+        )
     ):
         return True
 
